@@ -3,6 +3,7 @@ package symgo
 // Symbolic scalar values, ordered maps and structural equality.
 
 import (
+	"encoding/json"
 	"fmt"
 	"go/types"
 )
@@ -323,6 +324,12 @@ func sameType(x, y types.Type) bool {
 
 // eqv returns x == y for type t as bool or symBool.
 func (i *interpreter) eqv(t types.Type, x, y value) value {
+	if sx, ok := x.(symSlotsStr); ok {
+		return i.slotsStrEq(sx, y)
+	}
+	if sy, ok := y.(symSlotsStr); ok {
+		return i.slotsStrEq(sy, x)
+	}
 	if isSym(x) || isSym(y) {
 		switch x.(type) {
 		case symStr:
@@ -554,4 +561,44 @@ type vchan struct {
 	closed bool
 	elem   types.Type
 	id     int
+}
+
+// slotsStrEq compares the JSON text of a (partly) symbolic int32 list with
+// another string: two canonical list texts are equal exactly when the lists
+// have the same length and equal elements.
+func (i *interpreter) slotsStrEq(s symSlotsStr, other value) value {
+	var ovals []value
+	switch o := other.(type) {
+	case symSlotsStr:
+		ovals = o.vals
+	default:
+		if _, ok := other.(symStr); ok {
+			other = i.concreteStr(other)
+		}
+		str, ok := other.(string)
+		if !ok {
+			panic(engineTrap{msg: fmt.Sprintf("comparison of a symbolic slot list text with %T", other)})
+		}
+		var xs []int32
+		if err := json.Unmarshal([]byte(str), &xs); err != nil || xs == nil {
+			return false
+		}
+		canon, _ := json.Marshal(xs)
+		if string(canon) != str {
+			// same list in another spelling: a different string
+			return false
+		}
+		for _, x := range xs {
+			ovals = append(ovals, x)
+		}
+	}
+	if len(ovals) != len(s.vals) {
+		return false
+	}
+	tt := i.sym.tt
+	acc := tt.tru
+	for k := range s.vals {
+		acc = tt.and(acc, i.sym.boolTerm(i.eqv(types.Typ[types.Int32], s.vals[k], ovals[k])))
+	}
+	return wrapBool(acc)
 }
